@@ -255,6 +255,12 @@ func (db *DB) UpdateExternalAccountKey(ctx context.Context, provisionerID string
 		return errors.New("cannot change reference for an existing ACME EAB Key")
 	}
 
+	// A key binds once: the record was re-read under the lock, so a binding that
+	// another request stored since this one validated the key must not be replaced.
+	if !old.BoundAt.IsZero() && old.AccountID != eak.AccountID {
+		return acme.NewError(acme.ErrorUnauthorizedType, "external account binding key with id '%s' was already bound to account '%s' on %s", old.ID, old.AccountID, old.BoundAt)
+	}
+
 	nu := dbExternalAccountKey{
 		ID:            eak.ID,
 		ProvisionerID: eak.ProvisionerID,
